@@ -1,11 +1,13 @@
-(* Verified interval instance (Interval library, pure-Z radix-2 floats, 120 bits). *)
+(* Verified interval instance (Interval library, BigZ radix-2 floats on primitive 63-bit
+   integers, 100 bits). *)
 From Coq Require Import QArith ZArith Reals List.
 Import ListNotations.
-From Interval Require Import Specific_stdz Specific_ops Float_full Interval Xreal Basic Float.
+From Bignums Require Import BigZ.
+From Interval Require Import Specific_bigint Specific_ops Float_full Interval Xreal Basic Float.
 From TT Require Import Num.
-Module F := SpecificFloat StdZRadix2.
+Module F := SpecificFloat BigIntRadix2.
 Module I := FloatIntervalFull F.
-Definition prec := F.PtoP 120.
+Definition prec := F.PtoP 100.
 Definition iofQ (q : Q) : I.type :=
   I.div prec (I.fromZ prec (Qnum q)) (I.fromZ prec (Zpos (Qden q))).
 Definition NumI : Num I.type :=
@@ -15,7 +17,7 @@ Definition NumI : Num I.type :=
 (* Output format for the harness: [tag; m_lo; e_lo; m_hi; e_hi], tag 1 = bounded, 0 = other *)
 Definition show_f (f : F.type) : list Z :=
   match f with
-  | Specific_ops.Float m e => [1%Z; m; e]
+  | Specific_ops.Float m e => [1%Z; BigZ.to_Z m; BigZ.to_Z e]
   | _ => [0%Z; 0%Z; 0%Z]
   end.
 Definition show_i (i : I.type) : list Z :=
